@@ -45,6 +45,10 @@ CHECKS = {
              text="Bounded-exhaustive: inspection histories to depth 6 (quick) / 8 (thorough) over fingerprints placed below / at / inside / at / above every trained bound (math.nextafter around the real bounds), hash changes, all canary classes, manual flags, resets and false-alarm resets up to anergy, thresholds 1..3, on bare TCells and on the integrated ImmuneSystem with memory and all tolerance-rule severities; TLC evaluates TwoSignals, InsideIsClean, AnergicSilent, OneStepOnly, CriticalUntouched and CheckMatchesBounds on every edge; the evaluate() table is complete for producible responses; self-tolerance is sampled over seeded observation windows.",
              note="Trusted: TLC/SANY; the harness places fingerprints relative to the real bounds and TLC checks that profile.check reports exactly those bounds; tolerance table restricted to responses a watcher or its memory can produce (DESIGN.md section 6).",
              ref="DESIGN.md section 4 C17"),
+ "C19": dict(technique="TLA+ spec (Cascade.tla: step machine over pipeline plans) model-checked with TLC over every pipeline of the bounded space; every plan run on the real Cascade with logging stubs, its invocation log and result judged by TLC (Trace_Cascade.tla) which also runs the machine per record",
+             text="Fault enumeration decided by TLC: all pipelines of 0..2 (quick) / 0..3 (thorough) stages exhaustively, 3..5 stages sampled, each stage's checkpoint / processor / error handler independently passing, rejecting or raising, required or optional, both halt_on_failure settings, factors incl. beyond the clamp; GateFirst, FailClosed, HaltStops, SuccessMeansAll (incl. output = composition, none released on failure) and Amplification are evaluated on the recorded invocation log of the real run; plus the MAPK preset with gate-passing / rejecting / raising inputs.",
+             note="Trusted: TLC/SANY, logging stub callbacks. Amplification factors >= 1 (clamped product unambiguous). 4-5 stage pipelines are sampled with the seed.",
+             ref="DESIGN.md section 4 C19"),
 }
 NOT_APPLICABLE = []
 
